@@ -16,8 +16,10 @@ EXHAUSTIVE = {'quick': False, 'thorough': False}
 RULE = ('seeded random histories of 5..40 operations (create / attribute assignment / multi-column set / syncUpdate / destroySelf / '
         'get with and without a cleared cache / select) over an eager and a lazyUpdate class, each with 0..6 listeners drawn from the six '
         'row signals x {log, kwargs[c]=v, kwargs.pop(c), post_funcs.append}; streams: valid (no ill-typed value), failing (ill-typed values, missing required column, unknown/destroyed instances), keyset (assignments '
-        'whose receivers add/remove a key: delegated to set()), chain (0..8 listeners registered before/between/after the class statements of '
-        'a three-level InheritableSQLObject chain, then creations at every level in random order, some of them failing). '
+        'whose receivers add/remove a key: delegated to set()), raising (0..3 more listeners per class that raise once, or append a callback '
+        'that raises once, at any of the six signals; the history goes on: the later successful operations are judged), chain (0..8 listeners registered before/between/after the class statements of '
+        'a three-level InheritableSQLObject chain, then creations at every level in random order, some of them failing; chain-raising: '
+        '1..3 one-shot raising listeners/callbacks at the create / create-finished signals of the chain). '
         'Non-trivial = at least one signal reached a listener and a row was written; distinct = distinct (listeners, operations).')
 EXPLANATION = ('Theorems C19_* (Coq, all listener tables and all histories) over Model/Events.v; correspondence: the model evaluated by '
                'vm_compute against the real SQLObject on sqlite, step by step: outcome, the ordered trace of signal deliveries (signal, class, '
@@ -31,8 +33,11 @@ TRUSTED_BASE = [
     'modelled, not verified: PyDispatcher 2.0.7 (receivers of one (sender, signal) are called in connection order; positional arguments passed through), '
     'sqlite (AUTOINCREMENT ids, UPDATE/DELETE of a missing row is a no-op), Python dict insertion order',
     'fixture: columns a=IntCol() b=StringCol(default=None) c=IntCol(default=7); values None / small ints / short lowercase strings; '
-    'listeners are the four programs log / kwargs[c]=v / kwargs.pop(c) / post_funcs.append; listeners never raise, never touch the database, '
-    'never add a non-column key; one connection, no transactions; chain listeners only log or append callbacks',
+    'listeners are the programs log / kwargs[c]=v / kwargs.pop(c) / post_funcs.append / raise once / append a callback that raises once; '
+    'listeners never touch the database, '
+    'never add a non-column key; one connection, one thread, no transactions; chain listeners only log, append callbacks, or raise once at the '
+    'create / create-finished signals (a raising destroy listener inside the clean-up of a failed chain creation is not modelled); '
+    'every case starts with the per-thread list of postponed RowCreatedSignals removed if a previous case left one (cases are judged on their own)',
     'the instance an operation uses is the one its create returned (fetches never replace it)',
     'the correspondence harness tools/props/c19.py (writes are read off the SQL text passed to the connection\'s _executeRetry) and the cases.v evaluation',
 ]
@@ -74,26 +79,67 @@ def receivers(table, sig):
     return [(i, l[1]) for i, l in table if l[0] == sig]
 
 
-def deliver(table, sig, k, rid, kw):
-    """the ESig entries and the callbacks appended; kw is rewritten in place"""
+class Raised(Exception):
+    """a one-shot raising listener / callback would go off here"""
+
+
+def deliver(table, sig, k, rid, kw, fired=None):
+    """the ESig entries and the callbacks appended; kw is rewritten in place.
+    fired (a set of listener numbers, or None = nobody raises): an armed 'raise' listener goes off -> Raised;
+    an armed 'postraise' callback goes off when the caller runs the callbacks (run_tags)"""
     evs, tags = [], []
     for i, act in receivers(table, sig):
         evs.append(['sig', sig, k, rid, [[c, v] for c, v in kw.items()], i])
+        if act[0] == 'raise' and fired is not None and i not in fired:
+            fired.add(i)
+            raise Raised()
         apply_act(sig, act, kw)
-        if act[0] == 'post' and sig in HAS_POSTS:
-            tags.append(act[1])
+        if act[0] in ('post', 'postraise') and sig in HAS_POSTS:
+            tags.append((act[1], i, act[0] == 'postraise'))
     return evs, tags
 
 
-def after_part(table, sig, k, rid):
-    evs, tags = deliver(table, sig, k, rid, {})
-    return evs + [['post', sig, t, k, rid] for t in tags]
+def run_tags(tags, sig, k, rid, fired=None):
+    evs = []
+    for t, i, r in tags:
+        evs.append(['post', sig, t, k, rid])
+        if r and fired is not None and i not in fired:
+            fired.add(i)
+            raise Raised()
+    return evs
+
+
+def after_part(table, sig, k, rid, fired=None):
+    evs, tags = deliver(table, sig, k, rid, {}, fired)
+    return evs + run_tags(tags, sig, k, rid, fired)
+
+
+def note_fired(table, trace, fired):
+    """one-shot listeners that went off, read from an observed trace: a 'raise' listener goes off at its first call,
+    a 'postraise' listener (callback tag = 100 + its number) when one of its callbacks runs for the first time"""
+    acts = dict((i, l[1]) for i, l in table)
+    for e in trace:
+        if e[0] == 'sig' and acts.get(e[5], ['log'])[0] == 'raise':
+            fired.add(e[5])
+        elif e[0] == 'post' and e[2] >= 100 and acts.get(e[2] - 100, ['log'])[0] == 'postraise':
+            fired.add(e[2] - 100)
 
 
 def final_kw(table, sig, pairs):
     kw = mk_kw(pairs)
     deliver(table, sig, 0, None, kw)
     return kw
+
+
+def add_raisers(rng, lis, sigs, n):
+    """insert n one-shot raising listeners into a listener list; postraise tags are 100 + the listener's final number"""
+    for _ in range(n):
+        sig = rng.choice(sigs)
+        act = ['raise'] if rng.random() < 0.5 or sig == 'update' else ['postraise', 0]
+        lis.insert(rng.randint(0, len(lis)), [sig, act])
+    for i, l in enumerate(lis):
+        if l[1][0] == 'postraise':
+            l[1] = ['postraise', 100 + i]
 
 
 def keeps_key(table, c, v):
@@ -145,25 +191,48 @@ def plain_case(rng, stream):
         n = rng.choice([0, 1, 2, 3, 3, 4, 5, 6])
         sigw = rng.choice([SIGS, SIGS, ['update', 'updated'], ['create', 'created', 'update'], ['destroy', 'destroyed', 'update']])
         lis.append([rand_listener(rng, sigw, bad=bad * 0.5) for _ in range(n)])
+    if stream == 'raising':
+        # one-shot raising listeners / callbacks; the history goes on afterwards
+        for k in range(2):
+            add_raisers(rng, lis[k], rng.choice([SIGS, ['create', 'created'], ['created'], ['updated', 'destroyed', 'create']]),
+                        rng.choice([0, 1, 1, 2, 3]))
     tabs = [list(enumerate(l)) for l in lis]
     nops = rng.randint(5, 40)
-    ops, made = [], [0, 0]
+    ops = []
+    next_id, have, fired = [1, 1], [[], []], [set(), set()]
     for _ in range(nops):
         k = rng.randrange(2)
         r = rng.random()
-        if made[k] == 0 or r < 0.2:
+        if not have[k] or r < 0.2:
             need_a = not (stream == 'failing' and rng.random() < 0.3)
             pairs = rand_kw(rng, bad, need_a=need_a)
             ops.append(['create', k, pairs])
-            # ids are AUTOINCREMENT: only a creation that goes through consumes one
-            kw = final_kw(tabs[k], 'create', pairs)
+            # bookkeeping of ids (AUTOINCREMENT: used once the INSERT ran) and of the instances the history holds
+            try:
+                kw = mk_kw(pairs)
+                _e, tags = deliver(tabs[k], 'create', k, None, kw, fired[k])
+            except Raised:
+                continue
             for c in range(3):
                 if c not in kw and c in DEFAULT:
                     kw[c] = DEFAULT[c]
-            if len(kw) == 3 and all(val_ok(c, v) for c, v in kw.items()):
-                made[k] += 1
+            if not (len(kw) == 3 and all(val_ok(c, v) for c, v in kw.items())):
+                continue
+            rid = next_id[k]
+            next_id[k] += 1
+            ok = True
+            try:
+                run_tags(tags, 'create', k, rid, fired[k])
+            except Raised:
+                ok = False
+            try:
+                after_part(tabs[k], 'created', k, rid, fired[k])
+            except Raised:
+                ok = False
+            if ok:
+                have[k].append(rid)
             continue
-        rid = rng.randint(1, max(1, made[k])) if rng.random() < 0.97 or stream != 'failing' else made[k] + 2
+        rid = rng.choice(have[k]) if rng.random() < 0.97 or stream != 'failing' else next_id[k] + 2
         if r < 0.45:
             c = rng.randrange(3)
             v = rand_val(rng, c, bad)
@@ -195,11 +264,14 @@ def keyset_case(rng):
             return c
 
 
-def chain_case(rng, failing):
+def chain_case(rng, failing, raising=False):
     n = rng.choice([0, 1, 2, 3, 4, 5, 6, 8])
     sigw = rng.choice([['create', 'created'], ['create', 'created'], SIGS])
     lst = [rand_listener(rng, sigw, rewrite=False) for _ in range(n)]
     lst = [[s, a if a[0] in ('log', 'post') else ['log']] for s, a in lst]
+    if raising:
+        # chain listeners raise only at the create / create-finished signals
+        add_raisers(rng, lst, rng.choice([['create', 'created'], ['created']]), rng.choice([1, 1, 2, 3]))
     # positions: 0 = after class A, 1 = after class B, 2 = after class C
     script = [['def', 0]]
     slots = {0: [], 1: [], 2: []}
@@ -209,7 +281,7 @@ def chain_case(rng, failing):
         slots[pos].append(['listen', lvl, i, l])
     script += slots[0] + [['def', 1]] + slots[1] + [['def', 2]] + slots[2]
     ops = []
-    for _ in range(rng.randint(3, 10)):
+    for _ in range(rng.randint(3, 10) + (3 if raising else 0)):
         lvl = rng.choice([0, 1, 2, 2])
         bad = 0.25 if failing else 0.0
         cs = [c for c in range(lvl + 1) if rng.random() < 0.6]
@@ -217,7 +289,7 @@ def chain_case(rng, failing):
             cs.append(0)
         rng.shuffle(cs)
         ops.append([lvl, [[c, rand_val(rng, c, bad)] for c in cs]])
-    return {'kind': 'chain', 'stream': 'chain-failing' if failing else 'chain', 'script': script, 'ops': ops}
+    return {'kind': 'chain', 'stream': 'chain-raising' if raising else 'chain-failing' if failing else 'chain', 'script': script, 'ops': ops}
 
 
 def corpus():
@@ -237,6 +309,17 @@ def corpus():
          'ops': [['create', 0, [[0, 1]]], ['assign', 0, 1, 0, 5], ['set', 0, 1, [[2, 3], [1, 'q']]], ['get', 0, 1, True],
                  ['create', 1, [[2, 1], [0, 4]]], ['assign', 1, 1, 1, 'x'], ['set', 1, 1, [[0, 2]]], ['sync', 1, 1], ['sync', 1, 1],
                  ['select', 1], ['destroy', 0, 1], ['get', 0, 1, True], ['destroy', 1, 1]]},
+        # a create-finished receiver / callback raises once; the later creations (same class, other class, chain) must still get theirs
+        {'kind': 'plain', 'stream': 'raising', 'lis': [[['created', ['raise']], ['created', ['log']]], [['created', ['post', 1]]]],
+         'ops': [['create', 0, [[0, 1]]], ['create', 0, [[0, 2]]], ['create', 1, [[0, 3]]], ['assign', 0, 2, 0, 5]]},
+        {'kind': 'plain', 'stream': 'raising',
+         'lis': [[['created', ['postraise', 100]], ['updated', ['raise']], ['destroy', ['postraise', 102]], ['destroyed', ['log']]], []],
+         'ops': [['create', 0, [[0, 1]]], ['create', 0, [[0, 2]]], ['assign', 0, 2, 0, 5], ['assign', 0, 2, 0, 6], ['destroy', 0, 2],
+                 ['create', 0, [[0, 3]]], ['destroy', 0, 3]]},
+        {'kind': 'chain', 'stream': 'chain-raising',
+         'script': [['def', 0], ['listen', 0, 0, ['created', ['raise']]], ['def', 1], ['listen', 1, 1, ['created', ['log']]], ['def', 2],
+                    ['listen', 2, 2, ['create', ['postraise', 102]]]],
+         'ops': [[1, [[0, 1]]], [1, [[0, 2]]], [2, [[0, 3]]], [2, [[0, 4]]], [0, [[0, 5]]]]},
         {'kind': 'chain', 'stream': 'chain',
          'script': [['def', 0], ['listen', 0, 0, ['create', ['post', 1]]], ['listen', 0, 1, ['created', ['post', 2]]], ['def', 1],
                     ['listen', 1, 2, ['created', ['log']]], ['listen', 0, 3, ['created', ['log']]], ['def', 2],
@@ -250,16 +333,20 @@ def generate(rng, tier):
     out = []
     for i in range(n):
         r = i % 20
-        if r < 9:
+        if r < 7:
             out.append(plain_case(rng, 'valid'))
-        elif r < 13:
+        elif r < 10:
             out.append(plain_case(rng, 'failing'))
-        elif r < 15:
+        elif r < 12:
             out.append(keyset_case(rng))
-        elif r < 18:
+        elif r < 15:
+            out.append(plain_case(rng, 'raising'))
+        elif r < 17:
             out.append(chain_case(rng, False))
-        else:
+        elif r < 18:
             out.append(chain_case(rng, True))
+        else:
+            out.append(chain_case(rng, False, raising=True))
     return out
 
 
@@ -267,8 +354,8 @@ def search_cases(rng, tier):
     out = []
     for i in range(3000):
         r = i % 10
-        out.append(plain_case(rng, 'valid') if r < 5 else plain_case(rng, 'failing') if r < 7 else
-                   chain_case(rng, False) if r < 9 else chain_case(rng, True))
+        out.append(plain_case(rng, 'valid') if r < 4 else plain_case(rng, 'failing') if r < 5 else plain_case(rng, 'raising') if r < 7 else
+                   chain_case(rng, False) if r < 8 else chain_case(rng, True) if r < 9 else chain_case(rng, False, raising=True))
     return out
 
 
@@ -311,17 +398,48 @@ def _parse_write(q, tables):
     return None
 
 
-EXC = {'Invalid': 'invalid', 'TypeError': 'typeerror', 'KeyError': 'keyerror', 'SQLObjectNotFound': 'notfound'}
+EXC = {'Invalid': 'invalid', 'TypeError': 'typeerror', 'KeyError': 'keyerror', 'SQLObjectNotFound': 'notfound', 'VerifBoom': 'boom'}
+
+
+class VerifBoom(Exception):
+    """what the raising listeners / callbacks raise"""
+
+
+def _fresh_thread_state():
+    """every case starts without a left-over per-thread list of postponed RowCreatedSignals (so that a case is
+    judged on its own and a replay reproduces); returns whether the previous case had left one"""
+    from sqlobject import main
+    left = hasattr(main._postponed_local, 'postponed_calls')
+    if left:
+        del main._postponed_local.postponed_calls
+    return left
 
 
 def _make_receiver(events, trace, classes, sig, act, li):
     def cidx(inst):
         return classes.index(type(inst))
 
+    armed = [True]          # 'raise' / 'postraise' go off once
+
+    def callback_raising(tag):
+        def cb(i):
+            trace.append(['post', sig, tag, cidx(i), i.id])
+            if armed[0]:
+                armed[0] = False
+                raise VerifBoom('callback %d of listener %d' % (tag, li))
+        return cb
+
     def body(inst, kwargs, post_funcs):
         seen = [] if kwargs is None else [[COLS.index(k), v] for k, v in kwargs.items() if k in COLS]
         trace.append(['sig', sig, cidx(inst), getattr(inst, 'id', None), seen, li])
-        if act[0] == 'set' and kwargs is not None:
+        if act[0] == 'raise':
+            if armed[0]:
+                armed[0] = False
+                raise VerifBoom('listener %d' % li)
+        elif act[0] == 'postraise':
+            if post_funcs is not None:
+                post_funcs.append(callback_raising(act[1]))
+        elif act[0] == 'set' and kwargs is not None:
             kwargs[COLS[act[1]]] = act[2]
         elif act[0] == 'del' and kwargs is not None:
             kwargs.pop(COLS[act[1]], None)
@@ -564,6 +682,7 @@ def run_impl(cases):
     res = []
     for c in cases:
         try:
+            _fresh_thread_state()
             res.append(run_plain(c) if c['kind'] == 'plain' else run_chain(c))
         except Exception as e:  # noqa
             res.append({'crash': '%s: %s' % (type(e).__name__, e)})
@@ -590,7 +709,7 @@ CSIG = {'create': 'SCreate', 'created': 'SCreated', 'update': 'SUpdate', 'update
         'destroyed': 'SDestroyed'}
 CCLS = ['KEager', 'KLazy']
 CLVL = ['LA', 'LB', 'LC']
-CEXN = {'invalid': 'XInvalid', 'typeerror': 'XTypeError', 'keyerror': 'XKeyError', 'notfound': 'XNotFound'}
+CEXN = {'invalid': 'XInvalid', 'typeerror': 'XTypeError', 'keyerror': 'XKeyError', 'notfound': 'XNotFound', 'boom': 'XBoom'}
 
 
 def ckw(pairs):
@@ -604,6 +723,10 @@ def cact(a):
         return '(ASet %s %s)' % (CCOL[a[1]], cval(a[2]))
     if a[0] == 'del':
         return '(ADel %s)' % CCOL[a[1]]
+    if a[0] == 'raise':
+        return 'ARaise'
+    if a[0] == 'postraise':
+        return '(APostRaise %s)' % z(a[1])
     return '(APost %s)' % z(a[1])
 
 
@@ -700,9 +823,18 @@ def coq_case(c, o):
 
 
 # ---------------------------------------------------------------- oracle: the property judged on the observation
-def _expect_plain(tabs, op, pre_tables, pre_handles, post_tables):
+def _expect_plain(tabs, op, pre_tables, pre_handles, post_tables, fired):
     """(must_succeed, expected trace or None, expected table afterwards or None) for one operation,
-    from the documentation of the signals; written without the Coq model."""
+    from the documentation of the signals; written without the Coq model.  must_succeed = 'raise': one of the
+    one-shot raising listeners / callbacks goes off in this operation (fired = those that already have): the
+    operation is a failing one and is not judged."""
+    try:
+        return _expect_plain2(tabs, op, pre_tables, pre_handles, post_tables, set(fired))
+    except Raised:
+        return 'raise', None, None
+
+
+def _expect_plain2(tabs, op, pre_tables, pre_handles, post_tables, fired):
     t, k = op[0], op[1]
     table = tabs[k]
     lazy = (k == 1)
@@ -710,7 +842,7 @@ def _expect_plain(tabs, op, pre_tables, pre_handles, post_tables):
         return None, [], pre_tables[k]
     if t == 'create':
         kw = mk_kw(op[2])
-        evs, tags = deliver(table, 'create', k, None, kw)
+        evs, tags = deliver(table, 'create', k, None, kw, fired)
         for c in range(3):
             if c not in kw:
                 if c not in DEFAULT:
@@ -721,7 +853,7 @@ def _expect_plain(tabs, op, pre_tables, pre_handles, post_tables):
         new = [r for r in post_tables[k] if r[0] not in [x[0] for x in pre_tables[k]]]
         rid = new[0][0] if len(new) == 1 else None
         row = sort_cols(kw)
-        exp = evs + [['w', 'ins', k, rid, row]] + [['post', 'create', tg, k, rid] for tg in tags] + after_part(table, 'created', k, rid)
+        exp = evs + [['w', 'ins', k, rid, row]] + run_tags(tags, 'create', k, rid, fired) + after_part(table, 'created', k, rid, fired)
         return True, exp, pre_tables[k] + [[rid] + [v for _c, v in row]]
     rid = op[2]
     h = [x for x in pre_handles[k] if x[0] == rid]
@@ -734,21 +866,21 @@ def _expect_plain(tabs, op, pre_tables, pre_handles, post_tables):
         return [[r[0]] + [d.get(c, r[1 + c]) for c in range(3)] if r[0] == rid else r for r in pre_tables[k]]
     if t in ('assign', 'set'):
         kw = mk_kw([[op[3], op[4]]] if t == 'assign' else op[3])
-        evs, _ = deliver(table, 'update', k, rid, kw)
+        evs, _ = deliver(table, 'update', k, rid, kw, fired)
         if not all(val_ok(c, v) for c, v in kw.items()):
             return False, None, None
         if lazy:
             return True, evs, pre_tables[k]
         w = sort_cols(kw)
-        return True, evs + ([['w', 'upd', k, rid, w]] if w else []) + after_part(table, 'updated', k, rid), upd_table(w)
+        return True, evs + ([['w', 'upd', k, rid, w]] if w else []) + after_part(table, 'updated', k, rid, fired), upd_table(w)
     if t == 'sync':
         if not pend:
             return True, [], pre_tables[k]
         w = sort_cols(mk_kw(pend))
-        return True, [['w', 'upd', k, rid, w]] + after_part(table, 'updated', k, rid), upd_table(w)
+        return True, [['w', 'upd', k, rid, w]] + after_part(table, 'updated', k, rid, fired), upd_table(w)
     if t == 'destroy':
-        evs, tags = deliver(table, 'destroy', k, rid, {})
-        exp = evs + [['w', 'del', k, rid, []]] + [['post', 'destroy', tg, k, rid] for tg in tags] + after_part(table, 'destroyed', k, rid)
+        evs, tags = deliver(table, 'destroy', k, rid, {}, fired)
+        exp = evs + [['w', 'del', k, rid, []]] + run_tags(tags, 'destroy', k, rid, fired) + after_part(table, 'destroyed', k, rid, fired)
         return True, exp, [r for r in pre_tables[k] if r[0] != rid]
     return None, None, None
 
@@ -770,8 +902,9 @@ def _effective(script):
 def oracle_plain(c, o):
     tabs = [list(enumerate(l)) for l in c['lis']]
     pre_tables, pre_handles = [[], []], [[], []]
+    fired = [set(), set()]       # one-shot raising listeners that went off, per class (read from the observed traces)
     for i, (op, s) in enumerate(zip(c['ops'], o['steps'])):
-        must, exp, exp_table = _expect_plain(tabs, op, pre_tables, pre_handles, s['tables'])
+        must, exp, exp_table = _expect_plain(tabs, op, pre_tables, pre_handles, s['tables'], fired[op[1]])
         out = s['out']
         ok = (out == 'done' or (isinstance(out, list) and out[0] == 'ids'))
         f = None
@@ -799,13 +932,24 @@ def oracle_plain(c, o):
         if any(h[2] for hs in s['handles'] for h in hs):
             return {'what': 'row_update_sig_suppress is still set on an instance after the operation', 'step': i, 'op': op}
         pre_tables, pre_handles = s['tables'], s['handles']
+        for kk in range(2):
+            note_fired(tabs[kk], [e for e in s['tr'] if (e[0] == 'sig' and e[2] == kk) or (e[0] == 'post' and e[3] == kk)], fired[kk])
     return None
 
 
 def oracle_chain(c, o):
     eff = _effective(c['script'])
+    every = [(it[2], it[3]) for it in c['script'] if it[0] == 'listen']
+    fired = set()
     pre = [[], [], []]
     for i, ((lvl, kw0), s) in enumerate(zip(c['ops'], o['steps'])):
+        # a creation in which an armed one-shot listener / callback is due is a failing operation: not judged
+        armed = any(x[1][0] in ('raise', 'postraise') and n not in fired and x[0] in ('create', 'created')
+                    for l in range(lvl + 1) for n, x in eff[l])
+        if armed:
+            note_fired(every, s['tr'], fired)
+            pre = s['tables']
+            continue
         kw = mk_kw(kw0)
         vals = {}
         must = True
@@ -865,6 +1009,7 @@ def oracle_chain(c, o):
             f['step'] = i
             f['op'] = [lvl, kw0]
             return f
+        note_fired(every, s['tr'], fired)
         pre = s['tables']
     return None
 
